@@ -51,10 +51,24 @@ PROPS["C16"] = {
     "technique": "Kani harness-form contracts on the real decoders (contract-based deductive verification; bounded stand-in for buffer length)",
     "design_ref": "DESIGN.md section 5, C16",
 }
+PROPS["C10"] = {
+    "units": {"verus": ["c10_jubjub_fr"], "kani": []},
+    "scope": "the pure-Rust field code (Jubjub Fr: all limb arithmetic, Montgomery reduction, decoders) and the shipped constants; limb primitives adc/sbb/mac; canonical-encoding predicates of the BLS12-381 fields",
+    "not_decided": ["every blst_fr_* / blst_fp_* / blst_fp2/6/12_* routine: the run-time Fq/Fp/Fp2/Fp6/Fp12 arithmetic is C/assembly behind FFI",
+                    "Fr::pow, pow_vartime, invert, sqrt (loops / 300-step addition chain over square/mul)",
+                    "ff::helpers (Tonelli-Shanks), Bernstein-Yang inversion and Jacobi (ff_ext)", "macro-generated BN254 fields and towers (dev-curves)",
+                    "k256 and curve25519-dalek wrappers (external crates)", "Fp6/Fp12 Rust-level tower formulas"],
+    "trusted_base": [],
+    "assumptions": [],
+    "claim": "Proof for the pure-Rust field code and all shipped constants: every Jubjub Fr limb routine (add, sub, neg, double, mul, square, Montgomery reduction, from_raw) is shown, for ALL limb patterns, to compute the integer operation modulo q over the Montgomery abstraction, with the representation invariant val < q preserved; constants satisfy their defining equations. The blst-backed run-time arithmetic of BLS12-381 Fq/Fp and towers is ASSUMED, not proved.",
+    "level_note": "Verus/Z3 on function bodies extracted verbatim each run (contracts and ghost hints inserted, nothing edited); Kani/CBMC for byte-level decoders; integers modelled exactly. Trusted: Verus+Z3, Kani+CBMC, the extraction scanner; blst is outside.",
+    "technique": "Verus contracts (requires/ensures + lemmas) on extracted real functions; Kani harness contracts for byte-level code",
+    "design_ref": "DESIGN.md section 5, C10",
+}
 
 # claimed in DESIGN.md, machinery not built yet in this revision
 PENDING = {}
-for _p in ("C05", "C06", "C10", "C11"):
+for _p in ("C05", "C06", "C11"):
     PENDING[_p] = "planned in DESIGN.md section 5 but the check is not built yet in this revision; not claimed until it is"
 
 NOT_APPLICABLE = {
